@@ -39,6 +39,12 @@ type c07FlowInput struct {
 	TB    uint64 `json:"tb"`  // transmit block of the event
 	ETy   int    `json:"ety"` // event type for phase failed (2..4)
 	CB    uint64 `json:"cb"`  // check block at which w is offered again
+	// shape of the report that puts w in flight: N upkeeps (0 or 1 = w alone), w at index Pos;
+	// FirstRefused: the first upkeep of the report is one the coordinator refuses (it already
+	// awaits a higher block for it), otherwise every other upkeep of the report is acceptable
+	N            int  `json:"n,omitempty"`
+	Pos          int  `json:"pos,omitempty"`
+	FirstRefused bool `json:"firstRefused,omitempty"`
 }
 
 type c07FlowImpl struct {
@@ -95,7 +101,7 @@ func (w c07FlowWork) proposal(block uint64, salt byte) ocr2keepers.CoordinatedBl
 // c07FlowRun executes one flow case (inside a bubble).
 func c07FlowRun(t *testing.T, in c07FlowInput) c07FlowImpl {
 	var impl c07FlowImpl
-	r := NewRng(uint64(len(in.Path))*1000 + uint64(in.Type)*100 + in.CB)
+	r := NewRng(uint64(len(in.Path))*1000 + uint64(in.Type)*100 + in.CB + uint64(in.N)*7919 + uint64(in.Pos)*104729)
 	w, w0 := c07NewFlowWork(r, in.Type), c07NewFlowWork(r, in.Type)
 	ctx := context.Background()
 	conf := fmt.Sprintf(`{"performLockoutWindow":%d,"minConfirmations":%d}`, in.Cfg.WindowMs, in.Cfg.MinConf)
@@ -191,12 +197,33 @@ func c07FlowRun(t *testing.T, in c07FlowInput) c07FlowImpl {
 		feedGetter()
 	}
 
-	// 2. acceptance (and event)
-	rep := ocr2keepers.CheckResult{Eligible: true, UpkeepID: w.uid, Trigger: w.trigger(in.B, 9), WorkID: w.wid, GasAllocated: 1,
-		PerformData: []byte{}, FastGasWei: big.NewInt(1), LinkNative: big.NewInt(1)}
-	raw := must(node.Enc.Encode(rep))
-	node.Enc.Take()
-	impl.Accepted = must(node.Plugin.ShouldAcceptAttestedReport(ctx, 1, ocr3types.ReportWithInfo[plugin.AutomationReportInfo]{Report: raw}))
+	// 2. acceptance (and event): w is one upkeep of a report with in.N upkeeps
+	repOf := func(x c07FlowWork, b uint64) ocr2keepers.CheckResult {
+		return ocr2keepers.CheckResult{Eligible: true, UpkeepID: x.uid, Trigger: x.trigger(b, 9), WorkID: x.wid, GasAllocated: 1,
+			PerformData: []byte{}, FastGasWei: big.NewInt(1), LinkNative: big.NewInt(1)}
+	}
+	accept := func(rs ...ocr2keepers.CheckResult) bool {
+		raw := must(node.Enc.Encode(rs...))
+		node.Enc.Take()
+		return must(node.Plugin.ShouldAcceptAttestedReport(ctx, 1, ocr3types.ReportWithInfo[plugin.AutomationReportInfo]{Report: raw}))
+	}
+	n := in.N
+	if n < 1 {
+		n = 1
+	}
+	batch := make([]ocr2keepers.CheckResult, 0, n)
+	for i := 0; i < n; i++ {
+		if i == in.Pos || n == 1 {
+			batch = append(batch, repOf(w, in.B))
+			continue
+		}
+		f := c07NewFlowWork(r, (in.Type+i)%2)
+		if i == 0 && in.FirstRefused {
+			accept(repOf(f, in.B+50)) // the node already awaits a higher block for the first upkeep
+		}
+		batch = append(batch, repOf(f, in.B))
+	}
+	impl.Accepted = accept(batch...)
 	switch in.Phase {
 	case "performed", "failed":
 		ty := 1
@@ -313,9 +340,74 @@ func c07FlowCases() []c07FlowInput {
 	return out
 }
 
+// report shapes that put w in flight: (size, index of w, first upkeep refused)
+var c07Shapes = []struct {
+	n, pos       int
+	firstRefused bool
+}{{2, 1, false}, {3, 1, true}, {3, 2, false}, {4, 3, false}, {4, 3, true}, {4, 1, false}, {2, 0, false}, {3, 1, false}}
+
+// c07FlowBatched: the same grid with w accepted as part of a batched report — every shape for
+// the phases in which w must be withheld, a rotating shape for the others.
+func c07FlowBatched() []c07FlowInput {
+	var out []c07FlowInput
+	for i, c := range c07FlowCases() {
+		if c.Phase == "pending" || c.Phase == "performed" {
+			for _, sh := range c07Shapes {
+				b := c
+				b.N, b.Pos, b.FirstRefused = sh.n, sh.pos, sh.firstRefused
+				out = append(out, b)
+			}
+		} else {
+			sh := c07Shapes[i%len(c07Shapes)]
+			c.N, c.Pos, c.FirstRefused = sh.n, sh.pos, sh.firstRefused
+			out = append(out, c)
+		}
+	}
+	return out
+}
+
+// c07FlowGen: a random flow case (the plugin-level share of the generated C07 cases).
+func c07FlowGen(r *Rng) c07FlowInput {
+	in := c07FlowInput{Kind: "flow", Path: c07Paths[r.Intn(len(c07Paths))]}
+	tys := c07PathTypes(in.Path)
+	in.Type = tys[r.Intn(len(tys))]
+	in.Phase = []string{"pending", "pending", "performed", "performed", "failed", "expired"}[r.Intn(6)]
+	if in.Path == "retry" && in.Phase == "expired" {
+		in.Phase = "pending"
+	}
+	in.Cfg = c06Cfg{MinConf: []int{0, 1, 3}[r.Intn(3)], WindowMs: int64([]int{20000, 60000, 1200000}[r.Intn(3)])}
+	if in.Phase == "expired" {
+		in.Cfg.WindowMs = 20000
+	}
+	in.B = uint64(r.Range(50, 150))
+	in.TB = in.B + uint64(r.Range(1, 30))
+	in.ETy = r.Range(2, 4)
+	switch {
+	case in.Phase == "performed" && in.Type == 0:
+		in.CB = uint64(int64(in.TB) + int64(r.Range(-1, 1)))
+	default:
+		in.CB = uint64(int64(in.B) + int64(r.Range(-2, 3)))
+	}
+	in.N = r.Range(1, 4)
+	in.Pos = r.Intn(in.N)
+	in.FirstRefused = in.N > 1 && in.Pos > 0 && r.Chance(40)
+	return in
+}
+
 func c07FlowAll(t *testing.T, em *Emitter) {
-	for _, in := range c07FlowCases() {
+	run := func(in c07FlowInput) {
 		em.Hit("flow:" + in.Path)
+		em.Hit(fmt.Sprintf("flow:report-size=%d", max(in.N, 1)))
 		synctest.Test(t, func(t *testing.T) { em.Emit("flow", in, c07FlowRun(t, in)) })
+	}
+	for _, in := range c07FlowCases() {
+		run(in)
+	}
+	for _, in := range c07FlowBatched() {
+		run(in)
+	}
+	r := NewRng(seed() + 7007)
+	for i, n := 0, tierN(400, 6000); i < n; i++ {
+		run(c07FlowGen(r))
 	}
 }
